@@ -149,6 +149,7 @@ class SystemOfEquations(Module):
         # partitioning
         Aff = A[self.f, :][:, self.f]
         self.Afp = A[self.f, :][:, self.p]
+        self.Apf = A[self.p, :][:, self.f]
         self.App = A[self.p, :][:, self.p]
 
         # solve
@@ -159,7 +160,7 @@ class SystemOfEquations(Module):
 
         # set output
         self.x[self.f, ...] = xf
-        b[self.p, ...] = self.Afp.T @ xf + self.App @ xp
+        b[self.p, ...] = self.Apf @ xf + self.App @ xp
 
         return self.x, b
 
@@ -169,7 +170,7 @@ class SystemOfEquations(Module):
         if dgdx is not None:
             adjoint_load += dgdx[self.f, ...]
         if dgdb is not None:
-            adjoint_load += self.Afp @ dgdb[self.p, ...]
+            adjoint_load += self.Apf.T @ dgdb[self.p, ...]
 
         lam = np.zeros_like(self.x)
         lamf = -1.0 * self.module_LinSolve.solver.solve(adjoint_load, trans='T')
@@ -195,7 +196,7 @@ class SystemOfEquations(Module):
 
         if dgdb is not None:
             dgdbf += dgdb[self.f, ...]
-            dgdup += self.App @ dgdb[self.p, ...]
+            dgdup += self.App.T @ dgdb[self.p, ...]
 
         return dgdA, dgdbf, dgdup
 
